@@ -229,7 +229,7 @@ func (e *renv) attemptAckV1(s *sinks, m v1msg, label string) string {
 	in := M{"f": "relay.ackV1", "mut": label, "pkt": pktV1JSON(p), "ack": Hex(m.ack), "proofEmpty": len(m.proof) == 0, "env": envFacts(c, m.signer)}
 	_, route := k.PortKeeper.Route(p.SourcePort)
 	in["route"] = route
-	clientID, _, _ := chanConnFacts(c, p.SourcePort, p.SourceChannel, in)
+	clientID, chOpen, connOpen := chanConnFacts(c, p.SourcePort, p.SourceChannel, in)
 	commitment := k.ChannelKeeper.GetPacketCommitment(ctx, p.SourcePort, p.SourceChannel, p.Sequence)
 	in["commitment"] = Hex(commitment)
 	canon := true
@@ -238,7 +238,8 @@ func (e *renv) attemptAckV1(s *sinks, m v1msg, label string) string {
 		canon = bytes.Equal(parsed.Acknowledgement(), m.ack)
 	}
 	in["ackCanonical"] = canon
-	in["client"] = clientFacts(c, clientID, m.height, m.proof)
+	cf := clientFacts(c, clientID, m.height, m.proof)
+	in["client"] = cf
 	in["proof"] = proofFacts(cp, m.height, m.truth)
 	in["maxTimePerBlock"] = U(k.ConnectionKeeper.GetParams(ctx).MaxExpectedTimePerBlock)
 	if na, ok := k.ChannelKeeper.GetNextSequenceAck(ctx, p.SourcePort, p.SourceChannel); ok {
@@ -262,6 +263,12 @@ func (e *renv) attemptAckV1(s *sinks, m v1msg, label string) string {
 		}
 		if !bytes.Equal(commitment, ownCommitV1(p)) {
 			s.viol("C06", "ack-wrong-packet", "v1 acknowledgement processed for a packet whose fields do not hash to the stored commitment", in, M{"stored": Hex(commitment), "expected": Hex(ownCommitV1(p)), "mut": label})
+		}
+		if cf["active"] != true || cf["cons"] != true {
+			s.viol("C06", "ack-client", "v1 acknowledgement processed through a client that is not Active or has no consensus state at the proof height", in, M{"mut": label})
+		}
+		if !chOpen || !connOpen {
+			s.viol("C06", "ack-not-open", "v1 acknowledgement processed on a channel / connection that is not OPEN", in, M{"mut": label})
 		}
 		if len(e.ackCalls) != 1 {
 			s.viol("C06", "ack-callback-count", "OnAcknowledgementPacket invoked a number of times other than one for a processed acknowledgement", in, M{"calls": len(e.ackCalls)})
